@@ -1438,6 +1438,11 @@ func (m *Monitor) onSample(ev *Event) {
 		}
 	}
 	n.lastSample, n.lastSampleInc, n.lastSampleSeq = s, ev.Inc, ev.Seq
+	// log entries at or below the node's snapshot boundary are dead to it (they may be left over from before an
+	// installed snapshot whose log replacement was interrupted): commit evidence covers only what lies above
+	if s.LII > n.kMark && s.LII > n.base.Index {
+		n.kMark = s.LII
+	}
 	m.markCommitted(ev, n, s.Commit, "commitIndex")
 }
 
